@@ -103,6 +103,10 @@ MUTANTS += [
         (LD, "    def _insert_into_buffer(self, buffer, buffer_start, data_offset, length):\n        part = self._get_compressed_bytes(data_offset, length)",
              "    def _insert_into_buffer(self, buffer, buffer_start, data_offset, length):\n        try:\n            part = self._get_compressed_bytes(data_offset, length)\n"
              "        except IOError:\n            part = self._get_compressed_bytes(data_offset + length, length)")]),
+    ('c17_shared_scratch_between_workers', 'C17', 'pool workers pass the fetched part through one attribute of the loader', [
+        (LD, "        part = self._get_compressed_bytes(data_offset, length)\n        buffer[buffer_start: buffer_start + length] = part",
+             "        self._part = self._get_compressed_bytes(data_offset, length)\n"
+             "        buffer[buffer_start: buffer_start + length] = self._part")]),
     ('c17_footer_int_unchecked', 'C17', 'single-value footer read bypasses the checked primitive', [
         (RD, "                        buf = self.file.read_range(self.file, v + 4*index, 4)  # A 32-bit int is 4 bytes\n                        values[v] = np.frombuffer(buf, dtype=np.int32)[0]",
              "                        if self.local:\n                            self.file.seek(v + 4*index)\n                            buf = self.file.read(4).ljust(4, b'\\0')\n"
